@@ -483,6 +483,13 @@ fn values<const N: usize>(kind: u8) -> Result<bool, String> {
             ensure!(got == want, "VAL: from_fn_! Strings {got:?} != {want:?}");
             let got: [usize; N] = array::map!(input, |ref x| x.len());
             ensure!(got == input.each_ref().map(|x| x.len()), "VAL: map! len of Strings");
+            // the array argument is an expression with an effect: evaluated exactly once, like a method receiver
+            let n = std::cell::Cell::new(0u32);
+            let got: [String; N] = array::map!({ n.set(n.get() + 1); input.clone() }, |ref x| format!("{x}!"));
+            ensure!(got == want && n.get() == 1, "VAL: map! evaluated its array argument {} time(s)", n.get());
+            n.set(0);
+            let got: [String; N] = array::map_!({ n.set(n.get() + 1); input.clone() }, |x: String| x + "!");
+            ensure!(got == want && n.get() == 1, "VAL: map_! evaluated its array argument {} time(s)", n.get());
             Ok(true)
         }
         _ => {
